@@ -427,7 +427,9 @@ def check_filter_step(pva, w_rel, acc_n, with_altitude, T, dt_imu=0.02, out=None
                       "the integrator's", dict(row=int(i), col=int(k), measured=float(S[i, k]), model=float(SM[i, k]),
                                                tol=float(tolS[i, k]), T=Ts)))
     ratios = dict(rat_Phi=rat, rat_S=ratS)
-    if output_variant:
+    if output_variant and float(np.abs(true.pitch.values).max()) <= 85.0:
+        # (beyond 85 deg the Euler-angle output coordinates are outside the property's domain |pitch| <= 80 deg:
+        #  constant body rates can carry a trajectory that starts at +-80 deg past it within the filter step)
         fo, ro = output_variant_check(pva, true, traj, incs_of(w, f, dt, n), with_altitude, em, Phi, PhiM, tol, floor,
                                       n, Ts)
         fails += fo
@@ -436,7 +438,7 @@ def check_filter_step(pva, w_rel, acc_n, with_altitude, T, dt_imu=0.02, out=None
 
 
 ERR_COLS = ['north', 'east', 'down', 'VN', 'VE', 'VD', 'roll', 'pitch', 'heading']
-H_OUT = np.array([100.0, 100.0, 100.0, 1.0, 1.0, 1.0, 0.01, 0.01, 0.01])       # m, m/s, deg
+H_OUT = np.array([100.0, 100.0, 100.0, 1.0, 1.0, 1.0, 0.003, 0.003, 0.003])    # m, m/s, deg
 EPS_OUT = np.array([3e-9, 3e-9, 3e-9, 3e-13, 3e-13, 3e-13, 1e-12, 1e-12, 1e-12])
 
 
@@ -549,6 +551,20 @@ def numeric_statements(r, n_states, n_filter, seed_shift=0):
             worst[k] = max(worst[k], rat[k])
         for what, det in fl:
             fails.append((what, dict(rep, detail=det)))
+    # fixed cases run first: steep pitch with roll != pitch (output/internal transforms far from diagonal),
+    # unequal filter steps, both modes
+    fixed = [(True, [40.0, 20.0, 1000.0, 100.0, 50.0, -5.0, -10.0, 75.0, 100.0], [0.2, 1.0]),
+             (False, [-40.0, -120.0, 3000.0, -150.0, 80.0, 0.0, 25.0, -78.0, -160.0], [1.0, 0.2])]
+    for with_alt, vals, T in fixed:
+        pva = pd.Series(vals, index=COLS, dtype=float)
+        w, acc = np.array([0.02, -0.03, 0.05]), np.array([1.0, -0.5, 0.3])
+        rep = dict(kind='filter_step', with_altitude=with_alt, T=T, pva=vals, w=list(w / 0.2), acc=list(acc / 0.3))
+        r.case(('flt-fixed', with_alt, str(T)), sample=rep)
+        fl, rat = check_filter_step(pva, w, acc, with_alt, T)
+        for k in rat:
+            worst[k] = max(worst[k], rat[k])
+        for what, det in fl:
+            fails.append((what, dict(rep, detail=det)))
     for i in range(n_filter):
         with_alt = (i % 2 == 0)
         pva, w, acc = sample_state(rng, with_alt)
@@ -652,7 +668,11 @@ def _covered_functions():
     from pyins.error_model import InsErrorModel
     return {'InsErrorModel.system_matrices': InsErrorModel.system_matrices,
             'InsErrorModel._transform_3d_2d': InsErrorModel._transform_3d_2d,
-            'propagate_errors': error_model.propagate_errors}
+            'propagate_errors': error_model.propagate_errors,
+            '_phi_to_delta_rph': error_model._phi_to_delta_rph,
+            'InsErrorModel._transform_to_output_3d': InsErrorModel._transform_to_output_3d,
+            'InsErrorModel.transform_to_output': InsErrorModel.transform_to_output,
+            'InsErrorModel.transform_to_internal': InsErrorModel.transform_to_internal}
 
 
 def check(r):
